@@ -1,4 +1,5 @@
 """C08 Downlink local state equals the fold of what it received."""
+import collections
 from mirlib import AnchorMissing, describe_call, describe_operand, dom_guards, guards, _suffix_match
 from rules.common import aggregates, owner_def, panic_sites, where
 
@@ -339,3 +340,61 @@ def run(ctx):
                                         "the call sites of %s pass different values for `%s`: %s" % (dp.split("::")[-1], pn, sorted(vals)))
         if n < 2:
             raise AnchorMissing("expected >= 2 call sites with named flag arguments, found %d" % n)
+
+    with ctx.rule("C08.R7", "T10+T2", "hosted downlinks: the session state follows the notifications (transition table per notification, same for value and map; an unlink always leaves the linked states)", floor=12) as r:
+        def transitions(b):
+            """arm -> set of DlState values written to self.dl_state in that arm (directly or in a closure built in the arm), plus the set call sites"""
+            tab = collections.defaultdict(set)
+            sites = collections.defaultdict(list)
+
+            def arm_of(blk):
+                arm = None
+                for d, l, _ in dom_guards(b, blk):
+                    if d.startswith("disc(take(self.next)<Some>.0)") and l == "Err":
+                        arm = "Err"
+                    if d.startswith("disc(take(self.next)<Some>.0<Ok>.0)"):
+                        arm = l
+                return arm
+            for c in b.calls:
+                if c.name == "set" and describe_operand(b, c.args[0]).endswith("dl_state"):
+                    a = arm_of(c.block)
+                    tab[a].add(describe_operand(b, c.args[1]).replace("DlState::", "").replace("()", ""))
+                    sites[a].append(c.block)
+            for cb in ag.closures_of(b.defpath):
+                vals = [describe_operand(cb, c.args[1]).replace("DlState::", "").replace("()", "") for c in cb.calls if c.name == "set" and describe_operand(cb, c.args[0]).endswith("dl_state")]
+                if not vals:
+                    continue
+                # where is this closure built?
+                for i, j, p, rv, line in b.assigns():
+                    if rv[0] == "agg" and (rv[1].get("closure") or rv[1].get("coroutine") or "") == cb.defpath:
+                        a = arm_of(i)
+                        tab[a] |= set(vals)
+                        sites[a].append(i)
+            return tab, sites
+        EXPECT = {"Linked": {"Linked"}, "Synced": {"Synced"}, "Event": set(), "Unlinked": {"Stopped", "Unlinked"}, "Err": {"Stopped", "Unlinked"}}
+        tabs = {}
+        for kind, adt in (("value", "hosted::value::HostedValueDownlink"), ("map", "hosted::map::HostedMapDownlink")):
+            hn = ctx.saw(ag.fn(name="next_event", self_adt=adt))
+            tab, sites = transitions(hn)
+            tabs[kind] = tab
+            for arm, want in sorted(EXPECT.items()):
+                got = tab.get(arm, set())
+                r.check(got == want, "hosted-%s/%s/state-after" % (kind, arm), where(hn), "%s -> dl_state in %s" % (arm, sorted(want) or "unchanged"),
+                        "on %s the hosted %s downlink sets dl_state to %s (expected %s): it keeps believing it is in the old state - after an unlink that means events of the next session are treated as synced and a second on_unlinked is injected at stop" % (arm, kind, sorted(got) or "nothing", sorted(want)))
+            # an unlink (or a failure) leaves the linked states on every path
+            for arm in ("Unlinked", "Err"):
+                sw = [si for si in hn.switches_on(lambda p, si: True) if si.get("kind") == "disc" and arm in (hn.variant_edges(si["block"]) or {}) and ("Ok" in (hn.variant_edges(si["block"]) or {}) if arm == "Err" else "Linked" in (hn.variant_edges(si["block"]) or {}))]
+                if not sw:
+                    r.bad("hosted-%s/%s/every-path-leaves-linked" % (kind, arm), where(hn), "no match arm for %s found" % arm)
+                    continue
+                start = hn.variant_edges(sw[0]["block"])[arm]
+                ok, wit = hn.must_pass([start], set(sites.get(arm, [])))
+                r.check(ok and bool(sites.get(arm)), "hosted-%s/%s/every-path-leaves-linked" % (kind, arm), where(hn), "every path of the %s arm moves dl_state to Stopped or Unlinked" % arm,
+                        "a path of the %s arm leaves dl_state as it was (%s): the downlink stays 'linked'/'synced' after the link has gone" % (arm, wit))
+            lk = [c for c in hn.calls if c.name == "set" and "Linked" in describe_operand(hn, c.args[1]) and "Unlinked" not in describe_operand(hn, c.args[1])]
+            r.check(len(lk) == 1 and any("DlState::Unlinked" in d and l == "true" for d, l, _ in dom_guards(hn, lk[0].block)), "hosted-%s/Linked/only-from-Unlinked" % kind, where(hn),
+                    "a linked notification moves the state to Linked only from Unlinked (it does not demote Synced)")
+        for arm in sorted(EXPECT):
+            r.check(tabs["value"].get(arm, set()) == tabs["map"].get(arm, set()), "hosted-value=hosted-map/%s" % arm, "-", "value and map downlinks make the same transition on %s" % arm,
+                    "on %s the value downlink sets %s, the map downlink %s" % (arm, sorted(tabs["value"].get(arm, set())), sorted(tabs["map"].get(arm, set()))))
+
